@@ -340,6 +340,10 @@ def run(ctx):
                     "below INSTRUCTION_THRESHOLD never looks at the timeout, so a small kernel with many interleaved "
                     "dependency chains runs for minutes although --lcd-timeout promises to stop", fi.qname,
                     "uncontrolled " + U(c)[:80], fi.module.excerpt(c))
+    # a search that finishes in time is complete: every kernel line is a root in the multi-process search (C16-R1)
+    from . import c16
+    ctx.rule("R7", "a search that is not cut short covers every root (partition premises, C16-R1)")
+    c16.reuse_r1(ctx, "R7", "the result is incomplete although no time-out occurred and no warning is shown")
     # partial results are post-processed like complete ones: one loop over the merged list after both branches
     post = [l for l in ast.walk(f.node) if isinstance(l, ast.For) and U(l.iter) == "all_paths" and not C.enclosing_loops(l)]
     ctx.check(len(post) == 1 and all(cfg.reachable(n, post[0]) for n in sets), "R6",
